@@ -71,7 +71,7 @@ class AxiIcHarness(Harness):
 
     def __init__(self, name, proto, kind, nm, ns, mode="mixed", timeout=None, w_before_aw=False, w_late=True, greedy=False,
                  err=False, faults=None, unmapped=False, cap=None, die_after_accept=False, idle0=False, pipelined=False,
-                 cross_slave=False, qdepth=None):
+                 cross_slave=False, qdepth=None, rlen=0):
         self.name, self.proto, self.kind, self.nm, self.ns, self.mode = name, proto, kind, nm, ns, mode
         self.timeout, self.w_before_aw, self.w_late, self.greedy, self.err = timeout, w_before_aw, w_late, greedy, err
         self.fault_sw, self.die_after_accept = faults, die_after_accept
@@ -79,6 +79,7 @@ class AxiIcHarness(Harness):
         self.K = 2 if pipelined else 1
         self.Q = qdepth or (2 if pipelined else 1)
         self.cross_slave = cross_slave
+        self.rlen = rlen          # AXI (full) read bursts of rlen+1 beats (r.last only on the final beat)
         self.full = proto == "full"
         self.decoded = kind in ("shared", "crossbar", "decoder")
         self.has_timeout = timeout is not None and kind in ("shared", "timeout")
@@ -119,7 +120,7 @@ class AxiIcHarness(Harness):
 
     def env_init(self):
         return (tuple((0, None, (), 0) for _ in range(self.nm)), tuple((0, None, (), 0) for _ in range(self.nm)),
-                tuple(((), (), 0, 0) for _ in range(self.ns)), tuple(((), 0) for _ in range(self.ns)),
+                tuple(((), (), 0, 0) for _ in range(self.ns)), tuple(((), 0, 0) for _ in range(self.ns)),
                 (), tuple((0, 0) for _ in range(self.nm)), tuple((0, 0) for _ in range(self.ns)))
 
     # ---- choices ------------------------------------------------------------------------------------
@@ -183,7 +184,7 @@ class AxiIcHarness(Harness):
             sper = []
             for j in range(self.ns):
                 awq, wq, b_up, fault = ws[j]
-                arq, r_up = rs[j]
+                arq, r_up, rbeat = rs[j]
                 # time-out runs: a live slave accepts no later than cycle T (fail-stop faults only; a slave that accepts after
                 # expiry is outside C11), i.e. it may stall a request for at most T cycles
                 may_w = self.timeout is None or sst[j][0] < self.timeout
@@ -200,7 +201,7 @@ class AxiIcHarness(Harness):
             if self.fault_sw and not any(s[3] for s in ws):
                 for j in range(self.ns):
                     awq, wq, b_up, fault = ws[j]
-                    arq, r_up = rs[j]
+                    arq, r_up, rbeat = rs[j]
                     if b_up or r_up:
                         continue           # a response it has already raised stays (fail-stop happens between transfers)
                     busy = bool(awq or wq or arq)
@@ -268,12 +269,13 @@ class AxiIcHarness(Harness):
                 t, tag, arv = r
                 v[ar["valid"]], v[ar["addr"]] = 1, mkaddr(t, m, tag)
             if self.full:
-                v[ar["len"]] = v[ar["lock"]] = v[ar["cache"]] = v[ar["prot"]] = v[ar["qos"]] = v[ar["region"]] = 0
+                v[ar["lock"]] = v[ar["cache"]] = v[ar["prot"]] = v[ar["qos"]] = v[ar["region"]] = 0
+                v[ar["len"]] = self.rlen
                 v[ar["size"]], v[ar["burst"]], v[ar["id"]] = 2, 1, m
         wsx, rsx = env[2], env[3]
         for j, P in enumerate(self.S):
             awq, wq, b_up, _ = wsx[j]
-            arq, r_up = rsx[j]
+            arq, r_up, rbeat = rsx[j]
             sc = ch[1][j]
             fault = self.fault_of(env, ch, j)
             alive = fault != "all"
@@ -286,11 +288,11 @@ class AxiIcHarness(Harness):
             rv = int((r_up or sc[4]) and bool(arq) and alive)
             v[P["r"]["valid"]] = rv
             v[P["r"]["resp"]] = (RESP_SLVERR if sc[5] else RESP_OKAY) if rv else 3
-            v[P["r"]["data"]] = (0xA000 | (j << 8) | (arq[0][0] << 4) | arq[0][1]) if rv else 0xFFFFFFFF
+            v[P["r"]["data"]] = (0xA000 | (rbeat << 12) | (j << 8) | (arq[0][0] << 4) | arq[0][1]) if rv else 0xFFFFFFFF
             if self.full:
                 v[P["b"]["id"]] = awq[0][0] if bv else 3
                 v[P["r"]["id"]] = arq[0][0] if rv else 3
-                v[P["r"]["last"]] = 1
+                v[P["r"]["last"]] = int(rbeat == self.rlen) if rv else 1
 
     # ---- monitors -----------------------------------------------------------------------------------
     def observe(self, v, env, ch):
@@ -338,7 +340,7 @@ class AxiIcHarness(Harness):
         r_from = {}
         for j, P in enumerate(self.S):
             awq, wq, b_up, fault0 = ws[j]
-            arq, r_up = rs[j]
+            arq, r_up, rbeat = rs[j]
             fault2 = self.fault_of(env, ch, j)
             if hs(P, "aw"):
                 a = v[P["aw"]["addr"]]
@@ -385,9 +387,14 @@ class AxiIcHarness(Harness):
             rv = v[P["r"]["valid"]]
             if hs(P, "r"):
                 m, tag = arq[0]
-                r_from[m] = (j, tag, v[P["r"]["data"]], v[P["r"]["resp"]])
-                arq, rv = arq[1:], 0
-            rs2.append((arq, 1 if rv else 0))
+                lastbeat = (not self.full) or rbeat == self.rlen
+                r_from[m] = (j, tag, v[P["r"]["data"]], v[P["r"]["resp"]], lastbeat)
+                if lastbeat:
+                    arq, rbeat = arq[1:], 0
+                else:
+                    rbeat += 1
+                rv = 0
+            rs2.append((arq, 1 if rv else 0, rbeat))
         # ---------------- master side events ----------------
         wm2, rm2, ages2 = [], [], []
         coop = True
@@ -493,8 +500,11 @@ class AxiIcHarness(Harness):
                 if c[0] != "-" and not c[-1]:
                     coop = False
             if r_hs:
+                lastbeat = True
                 if m in r_from:
-                    j, rtag, rdata, rresp = r_from.pop(m)
+                    j, rtag, rdata, rresp, lastbeat = r_from.pop(m)
+                    if self.full and bool(v[P["r"]["last"]]) != lastbeat:
+                        return env, ("resp.r_last", f"master {m}: r.last={v[P['r']['last']]} on a beat whose slave-side last is {int(lastbeat)}"), 0
                     exp = pend[0]
                     if (j if self.decoded else exp[0], rtag) != exp:
                         return env, ("resp.r_route", f"master {m} awaits the response of read {exp} but receives the R of slave {j} for tag {rtag}"), 0
@@ -506,9 +516,10 @@ class AxiIcHarness(Harness):
                     if v[P["r"]["resp"]] != RESP_SLVERR or v[P["r"]["data"]] != 0xFFFFFFFF:
                         return env, ("timeout.resp", f"master {m}: time-out read response resp={v[P['r']['resp']]} data={v[P['r']['data']]:#x}"), 0
                     to_r += 1
-                pend2 = pend2[1:]
+                if lastbeat:
+                    pend2 = pend2[1:]
+                    cool2 = 1
                 served[m] = True
-                cool2 = 1
             if cool and c[0] == "start" and self.K == 1 and not self.greedy:
                 coop = False
             rm2.append((tag2, issue2, pend2, cool2))
@@ -531,7 +542,7 @@ class AxiIcHarness(Harness):
         for j in range(ns):
             s = sc[j]
             awq, wq, b_up, fault0 = ws[j]
-            arq, r_up = rs[j]
+            arq, r_up, rbeat = rs[j]
             if self.fault_of(env, ch, j):
                 if not self.has_timeout:
                     coop = False
